@@ -37,7 +37,8 @@ func tText(c context, s []byte) (context, int) {
 		if i < k || i+1 == len(s) {
 			return c, len(s)
 		} else if i+4 <= len(s) && bytes.Equal(commentStart, s[i:i+4]) {
-			return context{state: stateHTMLCmt}, i + 4
+			// The comment is inside the element that the text is in.
+			return context{state: stateHTMLCmt, element: c.element}, i + 4
 		}
 		i++
 		end := false
@@ -238,10 +239,10 @@ func tHTMLCmt(c context, s []byte) (context, int) {
 	// A comment ends with "-->" or with "--!>".
 	i := bytes.Index(s, commentEnd)
 	if j := bytes.Index(s, commentEndBang); j != -1 && (i == -1 || j < i) {
-		return context{}, j + 4
+		return context{element: c.element}, j + 4
 	}
 	if i != -1 {
-		return context{}, i + 3
+		return context{element: c.element}, i + 3
 	}
 	return c, len(s)
 }
